@@ -28,14 +28,20 @@ def frame_obligations(res, prefixes=None):
     failed = []
     n = 0
     written = {s.obj for s in sites if s.kind == 'write'}
+    escaping = frames.escapes(common.REPO)
     for q, desc in sorted(objs.items()):
         n += 1
         if q not in kit_f.OBJECTS and q not in kit_f.CONSTANT:
-            if desc.startswith('module-level') and 'global' not in desc and q not in written:
-                # a list/dict/set bound at module level that no site in the package writes: a constant table (a write site added later
-                # makes this obligation fail); caches, function attributes and `global` rebinding are state by nature and stay uncovered
+            if desc.startswith('module-level') and 'global' not in desc and q not in written and q not in escaping:
+                # a list/dict/set bound at module level that no site in the package writes and that is never handed on under another
+                # name: a constant table (a write site or an aliasing use added later makes this obligation fail); caches, function
+                # attributes and `global` rebinding are state by nature and stay uncovered
                 continue
-            failed.append(('object', 'module-level mutable state %s (%s) is not covered by the frame contract' % (q, desc), q))
+            how = ''
+            if q in escaping:
+                e = escaping[q][0]
+                how = '; it is handed on under another name in %s line %d (%s), so the write sites found by name do not bound what changes it' % e
+            failed.append(('object', 'module-level mutable state %s (%s) is not covered by the frame contract%s' % (q, desc, how), q))
     for s in sites:
         n += 1
         if s.obj in kit_f.CONSTANT:
